@@ -26,6 +26,9 @@ RecordedKinds(alg) == {"equal", "upper", "unequal", "trunc_odd", "trunc_even", "
                       {"other:" \o a : a \in Algs \ {alg}}
 Ver == UNION {{[k |-> "verifier", alg |-> s[1], source |-> s[2], recorded |-> r, len |-> n, chunks |-> c, seed |-> 5] :
                    r \in RecordedKinds(s[1]), n \in Lens, c \in {<<>>, <<1>>, <<64, 1>>}} : s \in Sources}
+\* the entry variable is overwritten with another entry between Verifier() and Close()
+VerReuse == UNION {{[k |-> "verifier", alg |-> s[1], source |-> s[2], recorded |-> r, len |-> 64, chunks |-> <<1>>, seed |-> 5, reuse_var |-> TRUE] :
+                   r \in {"equal", "unequal"}} : s \in Sources}
 \* sequences of verifications in one process: accept, reject, accept again (per algorithm), and reject first
 St(a, src, r) == [alg |-> a, source |-> src, recorded |-> r, len |-> 64, chunks |-> <<1>>, seed |-> 5]
 VerSeqs == {[k |-> "verifier_seq", steps |-> <<St(a, src, "equal"), St(a, src, "unequal"), St(a, src, "equal"), St(a, src, "trunc_even"), St(a, src, "equal")>>] :
@@ -37,5 +40,5 @@ LifeOps == {[op |-> "w", n |-> n] : n \in {1, 63, 65, 129}} \cup {[op |-> "ws", 
 LifeSeqs == UNION {[1..m -> LifeOps] : m \in 2..LifeLen}
 Life == {[k |-> "hasher_life", alg |-> a, ops |-> o] : a \in Algs,
             o \in {q \in LifeSeqs : \E i \in 1..Len(q) : q[i].op \in {"s", "e"}}}
-ASSUME Emit(SetToSeq(HWok \cup HRok \cup Ver) \o SetToSeq(VerSeqs) \o SetToSeq(Life))
+ASSUME Emit(SetToSeq(HWok \cup HRok \cup Ver) \o SetToSeq(VerSeqs) \o SetToSeq(Life) \o SetToSeq(VerReuse))
 =============================================================================
